@@ -34,7 +34,8 @@ type witness struct {
 }
 
 type checker struct {
-	rep *mon.Reporter
+	rep     *mon.Reporter
+	sampled int
 }
 
 func callName(op Op) string {
@@ -420,6 +421,10 @@ func (c *checker) checkSeq(s *Seq) {
 	// ---- immutability after a successful Compile (reference-free)
 	if im != nil {
 		rep.Count("sequences_compiled", 1)
+		if c.sampled < 3 {
+			c.sampled++
+			rep.Sample(map[string]any{"sequence": s, "outcome_vector_incl_appended_calls": string(first.vec), "appended_after_compile": opsText(ext[len(ops):])})
+		}
 		addsBetween := func(upto int) bool {
 			for j := imAt + 1; j < upto; j++ {
 				if ext[j].K != "K" {
@@ -582,6 +587,11 @@ func TestCheck(t *testing.T) {
 		}
 	}
 	rep.SetExhaustive(exhRank >= 0 && randRank < 0)
+	if exhRank >= 0 && randRank < 0 {
+		rep.Count("children_enumerating_only", 1)
+	} else {
+		rep.Count("children_sampling", 1)
+	}
 
 	rep.Cases(int64(len(myUnits))+myRandom, func(idx int64, rng *mon.Rand) {
 		if idx < int64(len(myUnits)) {
@@ -594,9 +604,6 @@ func TestCheck(t *testing.T) {
 					s = bases[u.base].nthInjection(u.start + k)
 				}
 				c.checkSeq(s)
-				if idx == 0 && k < 2 {
-					rep.Sample(s)
-				}
 			}
 			rep.Count("enumerated_sequences", u.count)
 			return
